@@ -97,8 +97,32 @@ def run_case(c):
     out["tgt_lons"], out["tgt_lats"] = flt(tlons), flt(tlats)
     out["src_shape"] = [int(x) for x in src.shape]
     out["tgt_shape"] = [int(x) for x in tgt.shape]
-    vii, voi, idx, dist = kd_tree.get_neighbour_info(src, tgt, r, neighbours=1, epsilon=0, reduce_data=False,
+    eps = c.get("epsilon", 0)
+    vii, voi, idx, dist = kd_tree.get_neighbour_info(src, tgt, r, neighbours=1, epsilon=eps, reduce_data=False,
                                                      nprocs=1, segments=1)
+    if c.get("check_segments"):
+        # other values of the segments argument must give the same neighbour info (C03 proves it for the model)
+        bad = []
+        rows = int(tgt.shape[0])
+        for seg in (None, 2, 3, rows + 3):
+            v2 = kd_tree.get_neighbour_info(src, tgt, r, neighbours=1, epsilon=eps, reduce_data=False, nprocs=1, segments=seg)
+            if not all(np.array_equal(np.asarray(a), np.asarray(b)) for a, b in zip((vii, voi, idx, dist), v2)):
+                bad.append(seg)
+        out["segments_differ"] = bad
+    if c.get("check_k2"):
+        # 'nn' sampling must refuse an index array with more than one neighbour per target
+        try:
+            i2 = kd_tree.get_neighbour_info(src, tgt, r, neighbours=2, epsilon=eps, reduce_data=False, nprocs=1, segments=1)
+            if np.asarray(i2[2]).ndim == 2 and int(np.asarray(i2[0]).sum()) and int(np.asarray(i2[1]).sum()):
+                try:
+                    kd_tree.get_sample_from_neighbour_info('nn', tgt.shape, data, i2[0], i2[1], i2[2], fill_value=fill)
+                    out["k2"] = "no error"
+                except Exception as e:
+                    out["k2"] = type(e).__name__
+            else:
+                out["k2"] = "n/a"
+        except Exception as e:
+            out["k2"] = "info:" + type(e).__name__
     out["vii"] = [int(x) for x in np.asarray(vii).ravel()]
     out["voi"] = [int(x) for x in np.asarray(voi).ravel()]
     out["idx"] = [int(x) for x in np.asarray(idx).ravel()]
@@ -127,9 +151,21 @@ def run_case(c):
         out["tgt_xyz"] = [[float(v) for v in row] for row in np.asarray(txyz, dtype=np.float64)]
     else:
         out["tgt_xyz"] = []
+    if sxyz.dtype == np.float64 and np.asanyarray(tlons).dtype == np.float64 and len(out["tgt_xyz"]) == int(ob.sum()):
+        # cos / sin as evaluated by the engine transform_lonlats uses, at the arguments lon*deg2rad / lat*deg2rad
+        deg2rad = np.pi / 180
+        args = np.concatenate([sl[vb] * deg2rad, sa[vb] * deg2rad, np.asanyarray(tlons).ravel()[ob] * deg2rad,
+                               np.asanyarray(tlats).ravel()[ob] * deg2rad]).astype(np.float64)
+        args = np.unique(args.view(np.int64)).view(np.float64) if args.size else args
+        if _spatial_mp.ne:
+            cs = _spatial_mp.ne.evaluate("cos(args)") if args.size else args
+            sn = _spatial_mp.ne.evaluate("sin(args)") if args.size else args
+        else:
+            cs, sn = np.cos(args), np.sin(args)
+        out["trig"] = [[float(a), float(b), float(d)] for a, b, d in zip(args, cs, sn)]
     res = kd_tree.get_sample_from_neighbour_info('nn', tgt.shape, data, vii, voi, idx, fill_value=fill)
     out["res"] = describe(res)
-    res2 = kd_tree.resample_nearest(src, data, tgt, r, epsilon=0, fill_value=fill, reduce_data=False, nprocs=1,
+    res2 = kd_tree.resample_nearest(src, data, tgt, r, epsilon=eps, fill_value=fill, reduce_data=False, nprocs=1,
                                     segments=1)
     out["direct_same"] = same(res, res2)
     return out
